@@ -28,7 +28,7 @@ func init() {
 		if tier == "thorough" {
 			n = 900
 		}
-		return Plan{Runs: n, Race: true, Level: "exploration", Rule: "one run = nine concurrent phases (cold-start handshakes; in background mode two new locations met in quick succession; concurrent first use of a location whose first download fails through all its retries; first use of a new multi-URL location while a refresh tick runs; handshakes overtaking a slow background first load; handshakes vs tick vs UpdateCRL vs forced background refresh; handshakes after a refresh that failed signature verification, then racing the refresh that recovers from it; OCSP lookups around cache expiry; handshakes vs Cleanup) with 2-6 client tasks over 1-2 validators, backend, fetch mode and preemption density drawn per run, executed under the race detector; non-trivial = at least 10 task switches happened inside a phase; distinct = distinct schedule fingerprints"}
+		return Plan{Runs: n, Race: true, Level: "exploration", Rule: "one run = ten concurrent phases (cold-start handshakes; in background mode two new locations met in quick succession; concurrent first use of a location whose first download fails through all its retries; first use of a new multi-URL location while a refresh tick runs; a first-use download that is in flight when a refresh cycle begins; handshakes overtaking a slow background first load; handshakes vs tick vs UpdateCRL vs forced background refresh; handshakes after a refresh that failed signature verification, then racing the refresh that recovers from it; OCSP lookups around cache expiry; handshakes vs Cleanup) with 2-6 client tasks over 1-2 validators, backend, fetch mode and preemption density drawn per run, executed under the race detector; non-trivial = at least 10 task switches happened inside a phase; distinct = distinct schedule fingerprints"}
 	}, Run: runC13})
 }
 
@@ -140,6 +140,7 @@ func runC13(h *Harness) {
 		}
 	}
 	// ---------------------------------------------------------------- phase 1b: first use of a new location while a tick is due
+	var tickSeen time.Duration // when a tick of the first validator was seen starting its cycle: the later ones follow every 10 minutes
 	{
 		l4 := w.NewLocation(LocOpts{Name: "L4", URL: "http://crl4.sim/d.crl", Issuer: w.A, NVers: 1, Extra: 2, Width: 11, Base: 3})
 		cdp4 := []string{"http://dead4.sim/x.crl", l4.URL}       // several URLs: the loader remembers which one worked
@@ -152,6 +153,7 @@ func runC13(h *Harness) {
 			}
 			return false
 		}, h.S.Now()+11*time.Minute)
+		tickSeen = h.S.Now()
 		cs = nil
 		n0 := nodes[0]
 		for i := 0; i < 2+nclients/2; i++ {
@@ -169,6 +171,38 @@ func runC13(h *Harness) {
 			v := errStr(c.hs.Err)
 			if strict && ((listed && v != "revoked") || (!listed && v != "accept")) {
 				h.Violation("C13.verdict", "first-use-during-tick", "phase 1b: %s on a location first used while a refresh tick ran returned %s", c.class, v)
+			}
+		}
+	}
+	// ---------------------------------------------------------------- phase 1b': a first-use download in flight when the tick fires
+	if fetch != "fetch_background" {
+		// the handshakes start 15 s before the next tick, their download takes 30 s: the refresh cycle begins while the
+		// download (its temporary file, its staging database) is under way. The origin is healthy: every sequential
+		// order of cycle and handshakes gives the listed certificate 'revoked'
+		l5 := w.NewLocation(LocOpts{Name: "L5", URL: "http://crl5.sim/e.crl", Issuer: w.A, NVers: 1, Extra: Pick(tp, 2, 40), Width: 12, Base: 5})
+		l5.SlowFirst = 30 * time.Second
+		ivl := 10 * time.Minute
+		next := tickSeen
+		for next-15*time.Second <= h.S.Now() {
+			next += ivl
+		}
+		h.Settle(next - 15*time.Second - h.S.Now())
+		cs = nil
+		n0 := nodes[0]
+		for i := 0; i < 1; i++ { // one handshake: a second one would load the list after the first one's failure and hide it
+			s, cl := mkcert(l5, []string{"common", "never"}[i])
+			c := &call{loc: l5, serial: s, class: cl, node: n0}
+			c.hs = h.StartHandshake(n0, "L5/"+cl, w.ChainFor(l5.Cert(s), l5.Issuer))
+			cs = append(cs, c)
+		}
+		waitAll(cs)
+		h.Settle(30 * time.Second)
+		for _, c := range cs {
+			h.R.Checks++
+			listed := c.loc.Lists(0, c.serial)
+			v := errStr(c.hs.Err)
+			if (listed && v != "revoked") || (!listed && v != "accept") {
+				h.Violation("C13.verdict", "first-use-download-spans-a-tick", "phase 1b': %s on a location whose first-use download (30 s, healthy origin) was in flight when a refresh cycle began returned %s", c.class, v)
 			}
 		}
 	}
